@@ -357,13 +357,13 @@ func lookup(fr *frame, instr *ssa.Lookup, x, idx value) value {
 // dynamic type.
 func binop(fr *frame, op token.Token, t types.Type, x, y value) value {
 	switch x.(type) {
-	case sym:
+	case sym, ftab, fmono:
 		return fr.i.symBinop(fr, op, x, y)
 	case symstr:
 		return fr.i.symStringBinop(op, x, y)
 	}
 	switch y.(type) {
-	case sym:
+	case sym, ftab, fmono:
 		if _, isIface := x.(iface); !isIface {
 			return fr.i.symBinop(fr, op, x, y)
 		}
@@ -870,6 +870,8 @@ func eqnil(fr *frame, t types.Type, x, y value) value {
 			case *closure:
 				return true
 			}
+		case *nativeFunc:
+			return false
 		case []value:
 			return (x != nil) == (y.([]value) != nil)
 		}
@@ -882,6 +884,19 @@ func eqnil(fr *frame, t types.Type, x, y value) value {
 func unop(fr *frame, instr *ssa.UnOp, x value) value {
 	if sx, ok := x.(sym); ok {
 		return fr.i.symUnop(instr.Op, sx)
+	}
+	if fx, ok := x.(fmono); ok && instr.Op == token.SUB {
+		if r, ok := fr.i.fmonoBinop(token.SUB, float64(0), fx); ok {
+			return r
+		}
+		return fr.i.symUnop(token.SUB, sym{types.Float64, fr.i.fmonoTerm(fx)})
+	}
+	if fx, ok := x.(ftab); ok && instr.Op == token.SUB {
+		nv := make([]float64, len(fx.vals))
+		for j := range nv {
+			nv[j] = -fx.vals[j]
+		}
+		return ftab{k: fx.k, key: fx.key, keys: fx.keys, vals: nv}
 	}
 	switch instr.Op {
 	case token.ARROW: // receive
@@ -1256,6 +1271,18 @@ func conv(fr *frame, t_dst, t_src types.Type, x value) value {
 	ut_src := t_src.Underlying()
 	ut_dst := t_dst.Underlying()
 
+	if fx, ok := x.(ftab); ok {
+		if db, ok := ut_dst.(*types.Basic); ok && db.Kind() == fx.k {
+			return fx
+		}
+		x = sym{fx.k, fr.i.ftabTerm(fx)}
+	}
+	if fx, ok := x.(fmono); ok {
+		if db, ok := ut_dst.(*types.Basic); ok && db.Kind() == types.Float64 {
+			return fx
+		}
+		x = sym{types.Float64, fr.i.fmonoTerm(fx)}
+	}
 	// symbolic scalar -> numeric / string
 	if sx, ok := x.(sym); ok {
 		if db, ok := ut_dst.(*types.Basic); ok {
